@@ -4,7 +4,7 @@
    the class hierarchy.  These definitions are the modelled (trusted) environment;
    everything moclo's own methods do with them is regenerated from the source.
    Executable definitions only. *)
-From MV Require Import Base Record Regex Typing Circle Annot Py.
+From MV Require Import Base Record Regex Typing Circle Annot Cache Py.
 From Coq Require Import String Ascii.
 
 Local Open Scope Z_scope.
@@ -334,3 +334,14 @@ Definition dict_getitem_str {V} (d : list (string * V)) (k : string) : exc V :=
   match dict_get String.eqb d k with Some v => Ok v | None => Err (XKeyError (KeyStr k)) end.
 Definition dict_mem_str {V} (d : list (string * V)) (k : string) : bool :=
   negb (is_none (dict_get String.eqb d k)).
+
+(* ---------- class namespaces (core/_structured.py: the `_regex` class attribute) ---------- *)
+
+(* the state: which classes own a `_regex` entry, and its value (Cache.v); a class is a centry
+   (its name, the names along its MRO, its description) *)
+Definition ns_own (st : cache) (c : centry) (attr : string) : option pattern := cache_get (cname c) st.
+Definition ns_set (st : cache) (c : centry) (attr : string) (p : pattern) : cache := (cname c, p) :: st.
+(* ordinary attribute lookup: the first owner along the MRO; None is StructuredRecord's default *)
+Definition ns_lookup (st : cache) (c : centry) (attr : string) : option pattern := lookup_names st (cmro c).
+Definition mk_DNARegex (p : pattern) : pattern := p.          (* DNARegex(text): the compiled pattern *)
+Definition cls_structure (c : centry) : pattern := cpat (ccls c).
